@@ -118,16 +118,17 @@ Section R.
 
   Lemma value_for_In : forall t ws, In t (targets ws) -> exists s, In (t, s, value_for t ws) ws.
   Proof.
-    intros t ws H. unfold targets in H. apply In_dedupN in H. apply in_map_iff in H.
+    intros t ws H. unfold targets in H. apply (proj1 (In_dedupN _ _)) in H. apply in_map_iff in H.
     destruct H as [[[t0 s0] d0] [E H]]. simpl in E; subst t0.
     unfold value_for.
-    destruct (filter (fun w : key * key * dyn => N.eqb (fst (fst w)) t) ws) as [|[[t1 s1] d1] l] eqn:F.
-    - exfalso. assert (X : In (t, s0, d0) (filter (fun w : key * key * dyn => N.eqb (fst (fst w)) t) ws)).
-      { apply filter_In. split; [exact H | simpl; apply N.eqb_refl]. }
-      rewrite F in X. destruct X.
-    - assert (X : In (t1, s1, d1) (filter (fun w : key * key * dyn => N.eqb (fst (fst w)) t) ws)) by (rewrite F; left; reflexivity).
-      apply filter_In in X. destruct X as [X Q]. simpl in Q. apply N.eqb_eq in Q. subst t1.
-      exists s1. simpl. exact X.
+    set (f := fun w : key * key * dyn => N.eqb (fst (fst w)) t).
+    assert (X0 : In (t, s0, d0) (filter f ws)).
+    { apply filter_In. split; [exact H | unfold f; simpl; apply N.eqb_refl]. }
+    destruct (filter f ws) as [|[[t1 s1] d1] l] eqn:F; [destruct X0|].
+    assert (X : In (t1, s1, d1) (filter f ws)) by (rewrite F; left; reflexivity).
+    apply filter_In in X. destruct X as [X Q]. unfold f in Q; simpl in Q. apply N.eqb_eq in Q. subst t1.
+    exists s1. change (In (t, s1, match filter f ws with [] => DNil | w :: _ => snd w end) ws).
+    rewrite F. exact X.
   Qed.
 
   Lemma next_safe : forall st done,
